@@ -1,6 +1,6 @@
-(* Response-parser proofs, part 5: concrete witnesses (vm_compute) - the refutations of the
-   unrestricted splitting statements by the place where the lax CR skipping depends on the read
-   boundary (the second such place, after the last-chunk line, was repaired: eb945bb), the CR/LF boundary at a line limit, and non-vacuity examples. *)
+(* Response-parser proofs, part 5: concrete examples (vm_compute): the former refutation witnesses
+   (CR CR LF after chunk data, CR after the last-chunk line, CR/LF boundary at a line limit - all three
+   repaired in the code) now behave identically in one read and split, and non-vacuity examples. *)
 From AV Require Import Lib.Base Lib.BytesX Lib.Utf8Decode Generated.HttpGen Generated.HttpRespGen Model.Http Model.HttpResp
   Proofs.HttpSegBase Proofs.HttpRespBase Proofs.HttpRespChunk Proofs.HttpRespSeg Proofs.HttpRespLimits.
 Open Scope N_scope.
@@ -34,42 +34,17 @@ Definition x_kelvin : bytes := [72; 84; 84; 80; 47; 49; 46; 49; 32; 50; 48; 48; 
 Definition x_status : bytes := [72; 84; 84; 80; 47; 49; 46; 49; 194; 160; 50; 48; 48; 226; 128; 168; 79; 75; 32; 116; 104; 101; 110; 32; 13; 10; 67; 111; 110; 116; 101; 110; 116; 45; 76; 101; 110; 103; 116; 104; 58; 32; 48; 13; 10; 13; 10].
 Definition x_fold : bytes := [72; 84; 84; 80; 47; 49; 46; 49; 32; 50; 48; 48; 32; 79; 75; 13; 10; 88; 58; 32; 49; 50; 51; 52; 53; 13; 10; 32; 49; 50; 51; 52; 53; 54; 13; 10; 13; 10].
 
-Definition r1_ab := Eval vm_compute in rfeed rcfg0 rinit w_a [].
-Definition r2_ab := Eval vm_compute in rfeed rcfg0 (fst (fst r1_ab)) w_b (snd (fst r1_ab)).
 Definition r1_cd := Eval vm_compute in rfeed rcfg0 rinit w_c [].
 Definition r2_cd := Eval vm_compute in rfeed rcfg0 (fst (fst r1_cd)) w_d (snd (fst r1_cd)).
 
-Lemma r1_ab_eq : rfeed rcfg0 rinit w_a [] = (fst (fst r1_ab), snd (fst r1_ab), OOk []).
-Proof. vm_compute. reflexivity. Qed.
-Lemma r2_ab_eq : rfeed rcfg0 (fst (fst r1_ab)) w_b (snd (fst r1_ab)) = (fst (fst r2_ab), snd (fst r2_ab), OOk []).
-Proof. vm_compute. reflexivity. Qed.
-Lemma r12_ab_one : snd (rfeed rcfg0 rinit (w_a ++ w_b) []) = OErr ETransferEncoding.
-Proof. vm_compute. reflexivity. Qed.
-Lemma r1_cd_eq : rfeed rcfg0 rinit w_c [] = (fst (fst r1_cd), snd (fst r1_cd), OOk []).
-Proof. vm_compute. reflexivity. Qed.
-Lemma r2_cd_eq : rfeed rcfg0 (fst (fst r1_cd)) w_d (snd (fst r1_cd)) = (fst (fst r2_cd), snd (fst r2_cd), OOk []).
-Proof. vm_compute. reflexivity. Qed.
-
-(* the read boundary state of the double-CR witness is the unclean one; the boundary after the
-   last-chunk line is an ordinary trailers state since the repair *)
-Lemma witnesses_unclean :
-  pkind_of (fst (fst r1_ab)) = Some (RChunked (RDataEnd true), [], []) /\ rclean_st (fst (fst r1_ab)) = false /\
-  pkind_of (fst (fst r1_cd)) = Some (RChunked RTrailers, [], []) /\ rclean_st (fst (fst r1_cd)) = true.
+(* CR CR LF after chunk data (former witness of C03-lax-double-cr): a CR that ends a read stays buffered, so
+   "... abc CR" | "CR LF 0 CRLF CRLF" raises the same TransferEncodingError as one read of the same bytes *)
+Lemma ex_double_cr_fixed :
+  pkind_of (fst (fst (rfeed rcfg0 rinit w_a []))) = Some (RChunked RDataEnd, [13], []) /\
+  rboundaries_ok rcfg0 rinit [w_a; w_b] [] = true /\
+  rdigest (rrun_segs rcfg0 rinit [w_a; w_b] [] []) = (OErr ETransferEncoding, [(200, [97; 98; 99], [3], false, Some ETransferEncoding)]) /\
+  rdigest (rrun_segs rcfg0 rinit [concat [w_a; w_b]] [] []) = (OErr ETransferEncoding, [(200, [97; 98; 99], [3], false, Some ETransferEncoding)]).
 Proof. vm_compute. repeat split. Qed.
-
-Definition split_accept_statement : Prop :=
-  forall cfg s a b acc s1 acc1 lo1 s2 acc2 lo2,
-    rwf s ->
-    rfeed cfg s a acc = (s1, acc1, OOk lo1) ->
-    rfeed cfg s1 b acc1 = (s2, acc2, OOk lo2) ->
-    rfeed cfg s (a ++ b) acc = (s2, acc2, OOk (lo1 ++ lo2)).
-
-(* CR CR LF after chunk data: both reads return normally, one read of the same bytes raises *)
-Lemma refute_split_double_cr : ~ split_accept_statement.
-Proof.
-  intro H. pose proof (H _ _ _ _ _ _ _ _ _ _ _ rwf_init r1_ab_eq r2_ab_eq) as E.
-  pose proof r12_ab_one as E2. rewrite E in E2. discriminate.
-Qed.
 
 (* a CR right after the last-chunk line (former witness of C03-lax-cr-after-last-chunk, repaired in
    eb945bb): split and one read now collect the same trailer line "CR X: y" and end in the same state *)
@@ -78,38 +53,39 @@ Lemma cd_split_eq_one :
   rfeed rcfg0 rinit (w_c ++ w_d) [] = (fst (fst r2_cd), snd (fst r2_cd), OOk []).
 Proof. vm_compute. split; reflexivity. Qed.
 
-Definition seg_accept_statement : Prop :=
-  forall cfg segs s acc lo s' acc' lo',
-    rwf s -> segs <> [] ->
-    rrun_segs cfg s segs acc lo = (s', acc', OOk lo') ->
-    rrun_segs cfg s [concat segs] acc lo = (s', acc', OOk lo').
-
-Lemma refute_seg_double_cr : ~ seg_accept_statement.
-Proof.
-  intro H.
-  assert (E1 : rrun_segs rcfg0 rinit [w_a; w_b] [] [] = (fst (fst r2_ab), snd (fst r2_ab), OOk [])) by (vm_compute; reflexivity).
-  apply H in E1; [|exact rwf_init|discriminate].
-  assert (E2 : snd (rrun_segs rcfg0 rinit [concat [w_a; w_b]] [] []) = OErr ETransferEncoding) by (vm_compute; reflexivity).
-  rewrite E1 in E2. discriminate.
-Qed.
-
 (* "0 CRLF" | "CR X: y CRLF CRLF": rejected identically in one read and when split (it used to be accepted
    in one read); the boundary is inside the theorems *)
 Lemma ex_cr_after_last_chunk_fixed :
-  rboundaries_clean rcfg0 rinit [w_c; w_d2] [] = true /\
+  rboundaries_ok rcfg0 rinit [w_c; w_d2] [] = true /\
   rdigest (rrun_segs rcfg0 rinit [w_c; w_d2] [] []) = (OErr EInvalidHeader, [(200, [97; 98; 99], [3], false, Some EInvalidHeader)]) /\
   rdigest (rrun_segs rcfg0 rinit [concat [w_c; w_d2]] [] []) = (OErr EInvalidHeader, [(200, [97; 98; 99], [3], false, Some EInvalidHeader)]).
 Proof. vm_compute. repeat split. Qed.
 
-(* reject direction: accepted in one read, rejected when split *)
-Lemma refute_reject_cr_boundary_limit :
-  rdigest (rrun_segs rcfg10 rinit [w_e; w_f] [] []) = (OErr ELineTooLong, []) /\
-  rdigest (rrun_segs rcfg10 rinit [concat [w_e; w_f]] [] []) = (OOk [], [(200, [], [], false, None)]).
-Proof. vm_compute. split; reflexivity. Qed.
+(* max_field_size = 10, field line "a:34567890" (10 bytes) cut between its CR and LF (former witness of
+   C03-cr-boundary-line-limit): the buffered "a:34567890 CR" is measured without its CR, split = one read *)
+Lemma ex_cr_boundary_limit_fixed :
+  rboundaries_ok rcfg10 rinit [w_e; w_f] [] = true /\
+  lenN (rtail (fst (fst (rfeed rcfg10 rinit w_e [])))) = 11 /\
+  rdigest (rrun_segs rcfg10 rinit [w_e; w_f] [] []) = (OOk [], [(200, [], [], false, None)]) /\
+  rrun_segs rcfg10 rinit [concat [w_e; w_f]] [] [] = rrun_segs rcfg10 rinit [w_e; w_f] [] [].
+Proof. vm_compute. repeat split. Qed.
+
+(* a trailer line that is too long and still buffered (33 bytes under max_field_size 30), completed by
+   the next read: the re-check at the start of the next read and the complete-line check of one read
+   raise the same LineTooLong (rrecheck_ok holds although rtail_ok does not) *)
+Definition rcfg30 : rcfg := mkCfg (mkLimits 40 30 8 0) true true.
+Definition z_a : bytes := [72; 84; 84; 80; 47; 49; 46; 49; 32; 50; 48; 48; 32; 79; 75; 13; 10; 84; 114; 97; 110; 115; 102; 101; 114; 45; 69; 110; 99; 111; 100; 105; 110; 103; 58; 32; 99; 104; 117; 110; 107; 101; 100; 13; 10; 13; 10; 48; 13; 10; 88; 58; 32; 48; 49; 50; 51; 52; 53; 54; 55; 56; 57; 48; 49; 50; 51; 52; 53; 54; 55; 56; 57; 48; 49; 50; 51; 52; 53; 54; 55].
+Definition z_b : bytes := [97; 98; 13; 10; 13; 10].
+Lemma ex_recheck_monotone :
+  rtail_ok (c_lim rcfg30) (fst (fst (rfeed rcfg30 rinit z_a []))) = false /\
+  rboundaries_ok rcfg30 rinit [z_a; z_b] [] = true /\
+  rdigest (rrun_segs rcfg30 rinit [z_a; z_b] [] []) = (OErr ELineTooLong, [(200, [], [], false, Some ELineTooLong)]) /\
+  rdigest (rrun_segs rcfg30 rinit [z_a ++ z_b] [] []) = (OErr ELineTooLong, [(200, [], [], false, Some ELineTooLong)]).
+Proof. vm_compute. repeat split. Qed.
 
 (* non-vacuity of the splitting theorems: three reads, both boundaries clean and within the limits *)
 Lemma ex_clean_three_reads :
-  rboundaries_clean rcfg0 rinit [x_a; x_b; x_c] [] = true /\
+  rboundaries_ok rcfg0 rinit [x_a; x_b; x_c] [] = true /\
   pkind_of (fst (fst (rfeed rcfg0 rinit x_a []))) = Some (RChunked RSize, [32; 49; 97], []) /\
   rdigest (rrun_segs rcfg0 rinit [x_a; x_b; x_c] [] []) =
     (OOk [], [(200, [97; 98; 99; 100; 101; 102; 103; 104; 105; 106; 107; 108; 109; 110; 111; 112; 113; 114; 115; 116; 117; 118; 119; 120; 121; 122], [26], true, None);
@@ -143,25 +119,15 @@ Proof. split; vm_compute; reflexivity. Qed.
 Lemma ex_bounded_hyps : rwf rinit /\ rbounded (mkLimits 16 8 4 0) 0 rinit.
 Proof. split; [exact rwf_init|apply rbounded_init]. Qed.
 
-(* a read boundary in the special state, harmless, and one after the last-chunk line: "... abc CR" | "LF 0 CRLF" | "CRLF" *)
+(* a read boundary between the CR and the LF after chunk data, and one after the last-chunk line: "... abc CR" | "LF 0 CRLF" | "CRLF" *)
 Definition y_a : bytes := [72; 84; 84; 80; 47; 49; 46; 49; 32; 50; 48; 48; 32; 79; 75; 13; 10; 84; 114; 97; 110; 115; 102; 101; 114; 45; 69; 110; 99; 111; 100; 105; 110; 103; 58; 32; 99; 104; 117; 110; 107; 101; 100; 13; 10; 13; 10; 51; 13; 10; 97; 98; 99; 13].
 Definition y_b : bytes := [10; 48; 13; 10].
 Definition y_c : bytes := [13; 10].
 
-Lemma ex_safe_unclean_reads :
-  rboundaries_clean rcfg0 rinit [y_a; y_b; y_c] [] = false /\
-  rboundaries_safe rcfg0 rinit [y_a; y_b; y_c] [] = true /\
-  pkind_of (fst (fst (rfeed rcfg0 rinit y_a []))) = Some (RChunked (RDataEnd true), [], []) /\
+Lemma ex_cr_kept_reads :
+  pkind_of (fst (fst (rfeed rcfg0 rinit y_a []))) = Some (RChunked RDataEnd, [13], []) /\
   rdigest (rrun_segs rcfg0 rinit [y_a; y_b; y_c] [] []) = (OOk [], [(200, [97; 98; 99], [3], true, None)]) /\
   rrun_segs rcfg0 rinit [concat [y_a; y_b; y_c]] [] [] = rrun_segs rcfg0 rinit [y_a; y_b; y_c] [] [].
-Proof. vm_compute. repeat split. Qed.
-
-(* the refutation witness is exactly the excluded continuation; the boundary after the last-chunk line
-   is safe whatever follows *)
-Lemma witnesses_unsafe :
-  rresume_st (fst (fst r1_ab)) w_b = false /\ rboundaries_safe rcfg0 rinit [w_a; w_b] [] = false /\
-  rresume_st (fst (fst r1_cd)) w_d = true /\ rresume_st (fst (fst r1_cd)) w_d2 = true /\
-  rboundaries_safe rcfg0 rinit [w_c; w_d2] [] = true.
 Proof. vm_compute. repeat split. Qed.
 
 (* a rejected segmentation: "... abc CR" | "LF zz CRLF" | "never read": same exception and messages as one read
